@@ -19,7 +19,8 @@ def _jobs(ctx):
     q = ctx.quick()
     n = 40 if q else 500
     return (sc.corpus_job(ctx) + [(f'rates{k}', ['rates_sto', n]) for k in range(8 if q else 12)]
-            + [(f'ship{k}', ['shipped_sto', n]) for k in range(3 if q else 8)] + [(f'fixrec{k}', ['fixrec_sto', n]) for k in range(3 if q else 6)])
+            + [(f'ship{k}', ['shipped_sto', n]) for k in range(3 if q else 8)] + [(f'fixrec{k}', ['fixrec_sto', n]) for k in range(3 if q else 6)]
+            + [('observed', ['monitored', n]), ('named', ['composed', n])])
 
 
 def _nt(e):
